@@ -451,17 +451,29 @@ def evalCall (p : Prog) (fuel : Nat) (st : St) (fr : Frame) (n : Node) : R (St Ã
       else unsupported "call-receiver"
     | none => unsupported "call"
 
-/-- Run a method body on fresh zero-initialised locals; arguments and the
-return value are checked against the declared (refined) types. -/
+/-- Run a method.  Public methods start with the prologue the C API defines
+(internal/cgen/func.go writeFuncImplSelfMagicCheck / writeFuncImplArgChecks,
+executed on EVERY call, also calls from other methods): an impure public
+method of a disabled object returns the zero value at once (pure ones still
+run: magic == DISABLED is let through); an out-of-range refined argument
+disables the object.  Then the body runs on fresh zero-initialised locals;
+arguments (of private methods) and the return value are checked against the
+declared (refined) types. -/
 def callFunc (p : Prog) (fuel : Nat) (st : St) (f : Func) (args : Binds) : R (St Ã— Val) :=
   match fuel with
   | 0 => .error "fuel"
   | fuel + 1 => do
     let args â† zipArgs f.params args
-    for (pn, pt) in f.params do
-      match lookup pn args with
-      | some (.int i) => if pt.hasInt i then pure () else undef s!"arg-range:{pn}:{i}"
-      | _ => pure ()
+    let zeroRet : Val := match f.out with
+      | some t => t.zero
+      | none => .unit
+    let bad := f.params.any (fun (n, t) => match lookup n args with
+      | some (.int i) => !(t.hasInt i)
+      | _ => false)
+    if f.pub && f.impure && st.disabled then pure (st, zeroRet)
+    else if f.pub && bad then pure ({ st with disabled := true }, .unit)
+    else if bad then undef s!"arg-range:{f.name}"
+    else
     let fr : Frame := { args := args, locals := f.vars.map (fun (n, t) => (n, t.zero)) }
     let (st', _, sig) â† execBlock p fuel st fr f.body
     match sig with
@@ -607,21 +619,9 @@ def initSt (p : Prog) : St := { fields := p.fields.map (fun (n, t) => (n, t.zero
 
 def defaultFuel : Nat := 200000
 
-/-- A public call as the C API defines it (internal/cgen/func.go
-writeFuncImplSelfMagicCheck / writeFuncImplArgChecks): a disabled object
-returns the zero value; an out-of-range refined argument disables the object. -/
+/-- One call of a history, from the outside. -/
 def callPublic (p : Prog) (st : St) (f : Func) (args : Binds) : R (St Ã— Val) :=
-  let zeroRet : Val := match f.out with
-    | some t => t.zero
-    | none => .unit
-  -- pure public methods still run on a disabled object (magic == DISABLED is let through)
-  if f.pub && f.impure && st.disabled then pure (st, zeroRet)
-  else
-    let bad := f.params.any (fun (n, t) => match lookup n args with
-      | some (.int i) => !(t.hasInt i)
-      | _ => false)
-    if f.pub && bad then pure ({ st with disabled := true }, .unit)
-    else callFunc p defaultFuel st f args
+  callFunc p defaultFuel st f args
 
 def showVal : Val â†’ String
   | .int i => toString i
